@@ -1280,7 +1280,7 @@ func (ec *evalCtx) evalCall(x *ast.CallExpr) (Value, types.Type) {
 		if len(x.Args) != 2 {
 			ec.fail("typeis(x, T)")
 		}
-		tv, err := types.Eval(vc.eng.fset, ec.pkg, token.NoPos, types.ExprString(x.Args[1]))
+		tv, err := evalTypeExpr(vc.eng.fset, ec.pkg, types.ExprString(x.Args[1]))
 		if err != nil || tv.Type == nil {
 			ec.fail("typeis: cannot resolve type %s", types.ExprString(x.Args[1]))
 		}
@@ -1292,7 +1292,7 @@ func (ec *evalCtx) evalCall(x *ast.CallExpr) (Value, types.Type) {
 		if _, ok := t.Underlying().(*types.Interface); !ok || len(x.Args) != 2 {
 			ec.fail("as(x, *T) of an interface value")
 		}
-		tv, err := types.Eval(vc.eng.fset, ec.pkg, token.NoPos, types.ExprString(x.Args[1]))
+		tv, err := evalTypeExpr(vc.eng.fset, ec.pkg, types.ExprString(x.Args[1]))
 		if err != nil || tv.Type == nil {
 			ec.fail("as: cannot resolve type %s", types.ExprString(x.Args[1]))
 		}
@@ -2037,4 +2037,25 @@ func sortStrings(s []string) {
 			s[j], s[j-1] = s[j-1], s[j]
 		}
 	}
+}
+
+// evalTypeExpr resolves a type written in a contract. Package scope knows no imports (they are
+// file scoped), so a qualified name such as *sync.Map is resolved in a scratch scope that binds the
+// names of the packages this package imports.
+func evalTypeExpr(fset *token.FileSet, pkg *types.Package, expr string) (types.TypeAndValue, error) {
+	tv, err := types.Eval(fset, pkg, token.NoPos, expr)
+	if err == nil && tv.Type != nil {
+		return tv, nil
+	}
+	scratch := types.NewPackage(pkg.Path(), pkg.Name())
+	sc := scratch.Scope()
+	for _, n := range pkg.Scope().Names() {
+		sc.Insert(pkg.Scope().Lookup(n))
+	}
+	for _, imp := range pkg.Imports() {
+		if sc.Lookup(imp.Name()) == nil {
+			sc.Insert(types.NewPkgName(token.NoPos, scratch, imp.Name(), imp))
+		}
+	}
+	return types.Eval(fset, scratch, token.NoPos, expr)
 }
